@@ -3,7 +3,7 @@ import itertools
 from tools import vlib
 
 PROP = "C14"
-GEN = ["gen_loc"]
+GEN = ["gen_loc", "gen_entry"]
 RULE = ("all strings up to length n over {a, space, TAB, NL, CR} x all loc in 0..len: model (regenerated from util.py) vs "
         "util.col/lineno/line, plus the consistency oracle against s.split('\\n') on the implementation; "
         "expandtabs model vs str.expandtabs; non-trivial = string has a newline and length >= 2")
@@ -83,11 +83,95 @@ def correspond(ctx):
             if vlib.from_coq_str(model_tabs[i]) != s.expandtabs():
                 ctx.broken("correspondence:expandtabs model!=impl on %r" % s)
             ctx.stat("expandtabs_compared")
+    parse_level_oracle(ctx)
     ctx.sample({"s": "a\n\tb", "loc": 3, "impl": list(impl_triple("a\n\tb", 3))})
     ctx.sample({"s": "\n\n", "loc": 1, "impl": list(impl_triple("\n\n", 1))})
     ctx.stat("strings", len(strs))
     ctx.coverage_extra["exhaustive"] = True
     ctx.coverage_extra["scope"] = "all strings of length <= %d over %r, all loc" % (n, ALPHA)
+
+
+# ---- parse level: reported locations index the parsed string -------------------------------------------------------------
+def parse_level_cases():
+    import pyparsing as pp
+    W = pp.Word("ab")
+    num = pp.Word("12")
+    exprs = [
+        ("word", lambda: W), ("seq", lambda: W + num), ("group", lambda: pp.Group(W + pp.Opt(num))), ("alt", lambda: num | W),
+        ("rep", lambda: pp.OneOrMore(W | num)), ("lit", lambda: pp.Literal("ab") + pp.Literal("1")),
+        ("notin", lambda: pp.CharsNotIn(" \n") + W), ("delim", lambda: pp.DelimitedList(W)),
+        ("nested", lambda: pp.Group("(" + pp.ZeroOrMore(W) + ")") | W),
+    ]
+    inputs = ["ab 12", "\tab\t12", "a\nb", "  ab", "ab\t\tba 1", "\n\tb 2\n", "a\tb", "(a\tb)", "a,\tb", "12\tab\n\tab", "x\tab"]
+    return exprs, inputs
+
+
+def parse_level_oracle(ctx):
+    import pyparsing as pp
+    exprs, inputs = parse_level_cases()
+    for name, mk in exprs:
+        for keep in (False, True):
+            for inp in inputs:
+                base = mk()
+                parsed = inp if keep else inp.expandtabs()
+                seen = []
+
+                def rec_action(s, l, t):
+                    seen.append((s, l, list(t)))
+                leaf = pp.Word("ab").add_parse_action(rec_action)
+                g = pp.OneOrMore(leaf | pp.Word("12") | pp.one_of("( ) ,"))
+                loc_e = pp.Located(mk())
+                otf = pp.original_text_for(mk())
+                if keep:
+                    for x in (g, loc_e, otf, base):
+                        x.parse_with_tabs()
+                key = "parse|%s|%s|%r" % (name, keep, inp)
+                bad = None
+                try:
+                    # (1) action locations index the parsed string and the token is the slice at that location
+                    try:
+                        g.parse_string(inp)
+                    except pp.ParseBaseException:
+                        pass
+                    for (s_, l, t) in seen:
+                        if s_ != parsed:
+                            bad = "the string handed to the action is not the parsed string"
+                        elif not (0 <= l <= len(parsed)) or parsed[l:l + len(t[0])] != t[0]:
+                            bad = "action loc %d does not index the token %r in %r" % (l, t[0], parsed)
+                    # (2) scan_string: slice start..end is what original_text_for returns there, and Located agrees
+                    for toks, st, en in base.scan_string(inp):
+                        if not (0 <= st <= en <= len(parsed)):
+                            bad = "scan_string reports (%d,%d) outside the parsed string" % (st, en)
+                            continue
+                        try:
+                            o = otf.parse_string(parsed[st:] if keep or "\t" not in parsed[st:] else parsed[st:])
+                            if o[0] != parsed[st:en] and base.parse_string(parsed[st:]).as_list() == toks.as_list():
+                                bad = "original_text_for gives %r, the slice %d..%d is %r" % (o[0], st, en, parsed[st:en])
+                        except pp.ParseBaseException:
+                            pass
+                    # (3) Located: locn_start..locn_end delimit the matched text
+                    try:
+                        r = loc_e.parse_string(inp)
+                        st, en = r["locn_start"], r["locn_end"]
+                        if not (0 <= st <= en <= len(parsed)):
+                            bad = "Located reports (%d,%d) outside the parsed string" % (st, en)
+                        else:
+                            try:
+                                # (a MatchFirst/Or does not pre-parse, so Located may start before the skipped whitespace)
+                                if otf.parse_string(inp)[0] != parsed[st:en].lstrip(" \t\n\r"):
+                                    bad = "original_text_for %r != parsed[%d:%d] %r" % (otf.parse_string(inp)[0], st, en, parsed[st:en])
+                            except pp.ParseBaseException:
+                                pass
+                    except pp.ParseBaseException as e:
+                        if not (0 <= e.loc <= len(parsed)):
+                            bad = "exception loc %d outside the parsed string" % e.loc
+                except Exception as ex:
+                    bad = "internal %s: %s" % (type(ex).__name__, ex)
+                ctx.case(key, nontrivial=("\t" in inp or "\n" in inp), agreed=True)
+                if bad:
+                    ctx.violation("parse-level:%s|%s|%r" % (name, keep, inp), "%s keep_tabs=%s on %r: %s" % (name, keep, inp, bad),
+                                  {"kind": "parse-level", "name": name, "keep": keep, "input": inp})
+    ctx.stat("parse_level_cases", len(exprs) * 2 * len(inputs))
 
 
 def search(ctx, reasons):
@@ -106,6 +190,14 @@ def search(ctx, reasons):
 
 def replay(ctx, obj):
     r = obj["replay"]
+    if r.get("kind") == "parse-level":
+        c2 = vlib.Ctx(PROP, "quick", 0)
+        c2.known = {}
+        parse_level_oracle(c2)
+        hits = [v for v in c2.violations if v["replay"] == r]
+        for v in hits:
+            print(v["what"])
+        return not hits
     if r.get("kind") == "loc":
         bad = oracle(r["s"], r["loc"])
         if bad:
